@@ -51,6 +51,7 @@ SHARED_FOLD = Fold(T['l'], init=list)
 SHARED_ITER = Iter().map(T * 2).filter(T).all()
 SHARED_MATCH = Match({'a': Or(dict, int)})
 SHARED_INVOKE = Invoke(sorted).specs(T['l'])
+SHARED_STAR = Invoke(lambda *a, **kw: (a, sorted(kw.items()))).star(args=T['l'], kwargs=T['d']).constants(9, z=1).specs(T['l'][0])
 SHARED_BIND = (S(k=T['a']), {'seen': S['k'], 'again': Coalesce(S['nope'], default='none')})
 
 POOL = [
@@ -74,6 +75,8 @@ POOL = [
     ('shared-match', lambda: {'a': 1}, SHARED_MATCH),
     ('shared-match-fail', lambda: {'a': 'str'}, SHARED_MATCH),
     ('shared-invoke', lambda: {'l': [3, 1, 2]}, SHARED_INVOKE),
+    ('shared-invoke-star-1', lambda: {'l': [3, 1], 'd': {'k': 1}}, SHARED_STAR),
+    ('shared-invoke-star-2', lambda: {'l': [7], 'd': {}}, SHARED_STAR),
     ('shared-bind', lambda: {'a': 'bound'}, SHARED_BIND),
     ('user-type-get-A', lambda: UA(), 'x'),
     ('user-type-get-B', lambda: UB(), 'x'),
